@@ -134,6 +134,28 @@ def gen_sched_case(rng, variant, gp=False, profile=False, rich=False):
                 workers=rng.choice([1, 2, 3, 4]), steps=rng.choice([18, 30] if gp else [25, 60, 120]),
                 interleave=(not gp), other_kinds=OTHER_KINDS if not gp else [], profile=profile,
                 ties=rng.random() < 0.3, p_fail=rng.choice([0.0, 0.05, 0.15]))
+    if not gp:
+        # unrelated instances of the same class with explicit non-default nested options (see c11_worker.pollute)
+        pol = []
+        for _ in range(rng.choice([1, 1, 2])):
+            pp = dict(p)
+            pp.pop("opts", None)
+            pp["search_options"] = dict(pp.get("search_options") or {}, allow_duplicates=rng.random() < 0.5)
+            pp["share_opts"] = rng.random() < 0.5
+            if kind == "hyperband":
+                pp["type"] = rng.choice([p["type"], "rush_stopping", "rush_promotion", "stopping"])
+                if pp["type"] == "pasha" or p.get("type") == "pasha":
+                    pp["type"] = p["type"]
+                pp["rung_system_kwargs"] = {"num_threshold_candidates": rng.choice([1, 2, 3])}
+                if pp["type"] == "cost_promotion":
+                    pp["type"] = "promotion"
+            pol.append([kind, pp])
+        case["polluters"] = pol
+        if kind == "hyperband" and str(p.get("type", "")).startswith("rush"):
+            if rng.random() < 0.7:
+                case["loss_profile"] = "rush"
+            if rng.random() < 0.2:
+                p["rung_system_kwargs"] = {"num_threshold_candidates": rng.choice([1, 2])}
     if kind == "dehb":
         # DEHB after trial failures: suggest() did not terminate before /repo commit 6439fb9 (C05 finding F-C05-2,
         # dehb_bracket_manager.trial_id_from_parent_slot) and still raises KeyError / AssertionError (F-C05-3/4);
@@ -267,6 +289,9 @@ def judge(ctx, case, ra, rb, hashseeds, facts=None, funcmap=None):
         ctx.h("options", "allow_duplicates=%s" % ("default" if ad is None else ad))
         if case.get("targeted"):
             ctx.h("targeting", "targeted_cases_judged")
+        ctx.h("options", "unrelated instances with explicit nested options: %d" % len(case.get("polluters") or []))
+        if case.get("loss_profile"):
+            ctx.h("options", "loss profile separating ASHA from RUSH")
         ctx.h("trace_len", min(len(tr) // 20 * 20, 120))
         for k in ("start", "resume", "result", "error", "complete"):
             ctx.h("events", k, kinds.get(k, 0))
